@@ -1,255 +1,222 @@
-(** Specification of bus-address resolution (written from the property text: "unix transport with
-    a path or abstract key, further keys in any order, resolves to exactly that socket; any other
-    string yields an error") and the theorems relating Conn/Addr.v to it. *)
+(** Specification of bus-address resolution (written from the property text: "a bus address of the
+    supported kind - unix transport with a path or abstract key, further keys in any order - resolves
+    to exactly that socket, and any other string yields an error") and the theorems relating
+    Conn/Addr.v to it.
+
+    The supported kind, read strictly: "unix:" followed by comma-separated key=value pairs, no ';'
+    anywhere (address lists are not supported), exactly one pair whose key is "path" or "abstract",
+    and that pair's value is not empty. Values are taken literally: percent-escapes are not decoded
+    (a path written with %xx simply names a file that does not exist). *)
 From RB Require Import Base.Prelude Conn.AddrBase Conn.Addr.
 
 (* ---------------------------------------------------------------- specification *)
-(* a key=value pair: the key contains neither ',' nor '=', the value no ',' *)
+(* a key=value pair: the key contains none of ',' '=' ';', the value neither ',' nor ';' *)
 Definition pair_ok (kv : list N * list N) : Prop :=
-  ~ In COMMA (fst kv) /\ ~ In EQUALS (fst kv) /\ ~ In COMMA (snd kv).
+  ~ In COMMA (fst kv) /\ ~ In EQUALS (fst kv) /\ ~ In SEMICOLON (fst kv)
+  /\ ~ In COMMA (snd kv) /\ ~ In SEMICOLON (snd kv).
 Definition render (kv : list N * list N) : list N := fst kv ++ EQUALS :: snd kv.
 Definition sock_key (k : list N) : Prop := k = PATH \/ k = ABSTRACT.
+Definition sockb (kv : list N * list N) : bool := is_socket_key (fst kv).
 (* "unix:" k1=v1,k2=v2,... *)
 Definition unix_address (pairs : list (list N * list N)) : list N :=
   UNIX ++ COLON :: join COMMA (map render pairs).
+(* [addr] is an address of the supported kind naming the socket [v] (a path if [is_path], else an
+   abstract name): exactly one pair has a socket key, its value is [v] and not empty *)
+Definition addr_grammar (addr : list N) (is_path : bool) (v : list N) : Prop :=
+  exists pairs, addr = unix_address pairs /\ Forall pair_ok pairs
+    /\ filter sockb pairs = [((if is_path then PATH else ABSTRACT), v)] /\ v <> [].
 (* what the caller of a successfully resolved address holds *)
 Definition target (exists_ : list N -> bool) (is_path : bool) (v : list N) : outcome unix_addr :=
   if is_path then (if exists_ v && (len v <? SUN_PATH) then Ok (Path v) else Err)
   else (if len v <? SUN_PATH then Ok (Abstract v) else Err).
 
-(* the text actually accepted (used for the converse): pairs before the socket key each followed by
-   a comma, the socket pair, and a tail that is empty or starts with a comma and is NOT inspected *)
-Definition accepted_text (before : list (list N * list N)) (key v tail : list N) : list N :=
-  UNIX ++ COLON :: concat (map (fun kv => render kv ++ [COMMA]) before) ++ render (key, v) ++ tail.
-Definition tail_ok (tail : list N) : Prop := tail = [] \/ exists t, tail = COMMA :: t.
-
 Definition ok_or_err {A} (o : outcome A) : Prop := match o with Ok _ | Err => True | _ => False end.
 
-(* ---------------------------------------------------------------- lemmas *)
+(* ---------------------------------------------------------------- lemmas on join / split *)
+Lemma In_join c x l : In x (join c l) -> x = c \/ exists p, In p l /\ In x p.
+Proof.
+  induction l as [|p l IH]; [intros []|]. destruct l as [|q l].
+  - cbn [join]. intros H. right. exists p. split; [now left|exact H].
+  - rewrite join_cons. intros H. apply in_app_or in H. destruct H as [H|[H|H]].
+    + right. exists p. split; [now left|exact H].
+    + now left.
+    + destruct (IH H) as [E|(p' & Hp & Hx)]; [now left|]. right. exists p'. split; [now right|exact Hx].
+Qed.
+Lemma In_join_r c x p l : In p l -> In x p -> In x (join c l).
+Proof.
+  induction l as [|q l IH]; [intros []|]. intros Hp Hx. destruct l as [|q2 l].
+  - destruct Hp as [->|[]]. exact Hx.
+  - rewrite join_cons. apply in_or_app. destruct Hp as [->|Hp]; [now left|]. right. right. now apply IH.
+Qed.
+Lemma split_join_inv c l : l <> [] -> Forall (fun p => ~ In c p) l -> split c (join c l) = l.
+Proof.
+  induction l as [|p l IH]; [congruence|]. intros _ H. inversion H as [|? ? Hp Hl]; subst.
+  destruct l as [|q l].
+  - cbn [join]. now apply split_no_sep.
+  - rewrite join_cons, split_app by exact Hp. f_equal. apply IH; [discriminate|exact Hl].
+Qed.
+
 Lemma render_no_comma kv : pair_ok kv -> ~ In COMMA (render kv).
 Proof.
-  intros (Hk & _ & Hv) Hin. unfold render in Hin. apply in_app_or in Hin.
+  intros (Hk & _ & _ & Hv & _) Hin. unfold render in Hin. apply in_app_or in Hin.
   destruct Hin as [H|[H|H]]; [auto|discriminate H|auto].
 Qed.
 Lemma split_once_render kv : ~ In EQUALS (fst kv) -> split_once EQUALS (render kv) = Some (fst kv, snd kv).
 Proof. intros H. apply split_once_some. split; [reflexivity|exact H]. Qed.
 
-Lemma not_sock_key_eqb k : ~ sock_key k -> bytes_eqb k PATH = false /\ bytes_eqb k ABSTRACT = false.
-Proof. intros H. split; apply bytes_eqb_neq; intros E; apply H; [now left|now right]. Qed.
-
-Lemma scan_pairs_skip before key v tail :
-  Forall pair_ok before -> Forall (fun kv => ~ sock_key (fst kv)) before ->
-  pair_ok (key, v) -> tail_ok tail ->
-  scan_pairs (split COMMA (concat (map (fun kv => render kv ++ [COMMA]) before) ++ render (key, v) ++ tail))
-  = if bytes_eqb key PATH then PPath v else if bytes_eqb key ABSTRACT then PAbstract v
-    else match tail with [] => PErr | _ :: t => scan_pairs (split COMMA t) end.
+Lemma is_socket_key_spec k : is_socket_key k = true <-> sock_key k.
+Proof. unfold is_socket_key, sock_key. rewrite orb_true_iff, !bytes_eqb_spec. reflexivity. Qed.
+Lemma filter_no_sock l : Forall (fun kv => ~ sock_key (fst kv)) l -> filter sockb l = [].
 Proof.
-  intros Hok Hns Hkv Ht. induction before as [|kv before IH]; cbn [map concat app].
-  - assert (Hs : split COMMA (render (key, v) ++ tail)
-                 = render (key, v) :: match tail with [] => [] | _ :: t => split COMMA t end).
-    { destruct Ht as [->|[t ->]].
-      - rewrite app_nil_r. apply split_no_sep. now apply render_no_comma.
-      - apply split_app. now apply render_no_comma. }
-    rewrite Hs. cbn [scan_pairs]. rewrite split_once_render by (apply Hkv). cbn [fst snd].
-    destruct (bytes_eqb key PATH); [reflexivity|]. destruct (bytes_eqb key ABSTRACT); [reflexivity|].
-    destruct tail; reflexivity.
-  - inversion Hok as [|? ? Hkv1 Hok']; subst. inversion Hns as [|? ? Hn1 Hns']; subst.
-    rewrite <- !app_assoc. cbn [app]. rewrite split_app by (now apply render_no_comma).
-    cbn [scan_pairs]. rewrite split_once_render by (apply Hkv1).
-    destruct (not_sock_key_eqb _ Hn1) as [-> ->]. now apply IH.
+  induction 1 as [|kv l Hn Hl IH]; [reflexivity|]. cbn [filter]. unfold sockb at 1.
+  destruct (is_socket_key (fst kv)) eqn:E; [apply is_socket_key_spec in E; contradiction|exact IH].
 Qed.
 
-Lemma join_render_split before x after :
-  join COMMA (map render (before ++ x :: after))
-  = concat (map (fun kv => render kv ++ [COMMA]) before) ++ render x
-    ++ match after with [] => [] | _ => COMMA :: join COMMA (map render after) end.
+(* ---------------------------------------------------------------- the loop, on rendered pairs *)
+(* what the loop does with the socket pairs it meets, in order *)
+Fixpoint scan_spec (l : list (list N * list N)) (socket : option (bool * list N)) : option (option (bool * list N)) :=
+  match l with
+  | [] => Some socket
+  | (k, v) :: r => if is_some socket || is_nil v then None else scan_spec r (Some (bytes_eqb k PATH, v))
+  end.
+
+Lemma scan_pairs_render pairs socket :
+  Forall (fun kv => ~ In EQUALS (fst kv)) pairs ->
+  scan_pairs (map render pairs) socket = scan_spec (filter sockb pairs) socket.
 Proof.
-  induction before as [|kv before IH]; cbn [map concat app].
-  - destruct after as [|y after]; cbn [map join]; [now rewrite app_nil_r|reflexivity].
-  - destruct (before ++ x :: after) as [|z zs] eqn:E; [destruct before; discriminate|].
-    cbn [map] in *. rewrite join_cons, IH. rewrite <- !app_assoc. reflexivity.
+  intros H. revert socket. induction H as [|[k v] pairs Hk Hp IH]; intros socket; [reflexivity|].
+  cbn [map scan_pairs filter]. rewrite split_once_render by exact Hk. unfold sockb at 1. cbn [fst snd] in *.
+  destruct (is_socket_key k); cbn [scan_spec].
+  - destruct (is_some socket || is_nil v); [reflexivity|apply IH].
+  - apply IH.
 Qed.
 
-Lemma parse_pre_unix rest : parse_pre (UNIX ++ COLON :: rest) = scan_pairs (split COMMA rest).
+Lemma scan_pairs_inv ps : forall socket res,
+  scan_pairs ps socket = Some res ->
+  exists pairs, ps = map render pairs /\ Forall (fun kv => ~ In EQUALS (fst kv)) pairs.
 Proof.
-  unfold parse_pre. assert (E : split_once COLON (UNIX ++ COLON :: rest) = Some (UNIX, rest)).
-  { apply split_once_some. split; [reflexivity|]. cbv. intuition discriminate. }
-  rewrite E. now rewrite bytes_eqb_refl.
+  induction ps as [|pr rest IH]; intros socket res H.
+  - exists []. split; [reflexivity|constructor].
+  - cbn [scan_pairs] in H. destruct (split_once EQUALS pr) as [[key value]|] eqn:E; [|discriminate].
+    apply split_once_some in E. destruct E as [-> Hk].
+    assert (Hrest : exists socket' res', scan_pairs rest socket' = Some res').
+    { destruct (is_socket_key key); [destruct (is_some socket || is_nil value); [discriminate|]|]; eauto. }
+    destruct Hrest as (s' & r' & Hr). destruct (IH _ _ Hr) as (pairs & -> & Hall).
+    exists ((key, value) :: pairs). split; [reflexivity|]. constructor; [exact Hk|exact Hall].
 Qed.
 
-Lemma tail_ok_after (after : list (list N * list N)) :
-  tail_ok match after with [] => [] | _ => COMMA :: join COMMA (map render after) end.
-Proof. destruct after; [now left|right; eexists; reflexivity]. Qed.
-
-(* first socket key wins, whatever follows *)
-Lemma parse_pre_first_wins before key v after :
-  Forall pair_ok before -> Forall (fun kv => ~ sock_key (fst kv)) before -> pair_ok (key, v) -> sock_key key ->
-  parse_pre (unix_address (before ++ (key, v) :: after))
-  = if bytes_eqb key PATH then PPath v else PAbstract v.
+Lemma scan_spec_one l (b : bool) v :
+  scan_spec l None = Some (Some (b, v)) <-> exists k, l = [(k, v)] /\ v <> [] /\ bytes_eqb k PATH = b.
 Proof.
-  intros Hok Hns Hkv Hsk. unfold unix_address. rewrite parse_pre_unix, join_render_split.
-  rewrite scan_pairs_skip by (auto using tail_ok_after).
-  destruct Hsk as [->| ->]; reflexivity.
+  split.
+  - destruct l as [|[k v'] r]; cbn [scan_spec]; [discriminate|]. cbn [is_some orb].
+    destruct v' as [|x v']; cbn [is_nil]; [discriminate|].
+    destruct r as [|[k2 v2] r]; cbn [scan_spec is_some orb]; [|discriminate].
+    intros H. inversion H; subst. exists k. repeat split; auto. discriminate.
+  - intros (k & -> & Hv & <-). cbn [scan_spec is_some orb]. destruct v; [congruence|reflexivity].
 Qed.
 
-Lemma resolve_target exists_ v :
-  resolve exists_ (PPath v) = target exists_ true v /\ resolve exists_ (PAbstract v) = target exists_ false v.
-Proof. unfold resolve, target. split; [|reflexivity]. destruct (exists_ v), (len v <? SUN_PATH); reflexivity. Qed.
-
-(* T1: an address of the supported kind resolves to the socket of its FIRST path|abstract pair *)
-Theorem addr_path_resolves exists_ before p after :
-  Forall pair_ok before -> Forall (fun kv => ~ sock_key (fst kv)) before -> ~ In COMMA p ->
-  parse_dbus_addr_str exists_ (unix_address (before ++ (PATH, p) :: after)) = target exists_ true p.
+Lemma no_semicolon_spec addr : existsb (N.eqb SEMICOLON) addr = false <-> ~ In SEMICOLON addr.
 Proof.
-  intros Hok Hns Hp. unfold parse_dbus_addr_str. rewrite parse_pre_first_wins.
-  - apply resolve_target.
-  - exact Hok.
-  - exact Hns.
-  - repeat split; cbn [fst snd]; auto; cbv; intuition discriminate.
-  - now left.
-Qed.
-Theorem addr_abstract_resolves exists_ before k after :
-  Forall pair_ok before -> Forall (fun kv => ~ sock_key (fst kv)) before -> ~ In COMMA k ->
-  parse_dbus_addr_str exists_ (unix_address (before ++ (ABSTRACT, k) :: after)) = target exists_ false k.
-Proof.
-  intros Hok Hns Hp. unfold parse_dbus_addr_str. rewrite parse_pre_first_wins.
-  - apply resolve_target.
-  - exact Hok.
-  - exact Hns.
-  - repeat split; cbn [fst snd]; auto; cbv; intuition discriminate.
-  - now right.
+  split.
+  - intros H Hin. assert (E : existsb (N.eqb SEMICOLON) addr = true); [|congruence].
+    apply existsb_exists. exists SEMICOLON. split; [exact Hin|apply N.eqb_refl].
+  - intros H. destruct (existsb (N.eqb SEMICOLON) addr) eqn:E; [|reflexivity].
+    apply existsb_exists in E. destruct E as (x & Hin & Hx). apply N.eqb_eq in Hx. subst. contradiction.
 Qed.
 
-(* a well-formed unix address without a path|abstract key is an error *)
-Theorem addr_no_socket_key exists_ pairs :
-  Forall pair_ok pairs -> Forall (fun kv => ~ sock_key (fst kv)) pairs ->
-  parse_dbus_addr_str exists_ (unix_address pairs) = Err.
+Lemma unix_address_no_semicolon pairs : Forall pair_ok pairs -> ~ In SEMICOLON (unix_address pairs).
 Proof.
-  intros Hok Hns. unfold parse_dbus_addr_str, unix_address. rewrite parse_pre_unix.
-  destruct pairs as [|kv pairs]; [reflexivity|].
-  assert (E : scan_pairs (split COMMA (join COMMA (map render (kv :: pairs)))) = PErr); [|now rewrite E].
-  revert kv Hok Hns. induction pairs as [|kv2 pairs IH]; intros kv Hok Hns;
-    inversion Hok as [|? ? Hkv Hok']; subst; inversion Hns as [|? ? Hn Hns']; subst.
-  - cbn [map join]. rewrite split_no_sep by (now apply render_no_comma). cbn [scan_pairs].
-    rewrite split_once_render by (apply Hkv). now destruct (not_sock_key_eqb _ Hn) as [-> ->].
-  - cbn [map]. rewrite join_cons. rewrite split_app by (now apply render_no_comma). cbn [scan_pairs].
-    rewrite split_once_render by (apply Hkv). destruct (not_sock_key_eqb _ Hn) as [-> ->].
-    apply (IH kv2 Hok' Hns').
+  intros Hok Hin. unfold unix_address in Hin. apply in_app_or in Hin. destruct Hin as [H|[H|H]].
+  - cbv in H. intuition discriminate.
+  - discriminate H.
+  - apply In_join in H. destruct H as [H|(p & Hp & Hx)]; [discriminate H|].
+    apply in_map_iff in Hp. destruct Hp as (kv & <- & Hkv). rewrite Forall_forall in Hok.
+    destruct (Hok kv Hkv) as (_ & _ & Hks & _ & Hvs). unfold render in Hx. apply in_app_or in Hx.
+    destruct Hx as [Hx|[Hx|Hx]]; [auto|discriminate Hx|auto].
 Qed.
 
-(* ---------------------------------------------------------------- converse: only such strings resolve *)
-Lemma scan_pairs_inv ps (is_path : bool) v :
-  Forall (fun p => ~ In COMMA p) ps ->
-  scan_pairs ps = (if is_path then PPath v else PAbstract v) ->
-  exists before rest,
-    join COMMA ps = concat (map (fun kv => render kv ++ [COMMA]) before)
-                    ++ render ((if is_path then PATH else ABSTRACT), v)
-                    ++ match rest with [] => [] | _ => COMMA :: join COMMA rest end
-    /\ Forall pair_ok before /\ Forall (fun kv => ~ sock_key (fst kv)) before /\ ~ In COMMA v.
+Lemma split_once_unix rest : split_once COLON (UNIX ++ COLON :: rest) = Some (UNIX, rest).
+Proof. apply split_once_some. split; [reflexivity|]. cbv. intuition discriminate. Qed.
+
+(* ---------------------------------------------------------------- parser = grammar *)
+Definition pre_of (is_path : bool) (v : list N) : addr_pre := if is_path then PPath v else PAbstract v.
+
+Lemma parse_pre_grammar addr (is_path : bool) v : addr_grammar addr is_path v -> parse_pre addr = pre_of is_path v.
 Proof.
-  induction ps as [|pr rest IH]; intros Hnc Hs; cbn [scan_pairs] in Hs.
-  - destruct is_path; discriminate.
-  - inversion Hnc as [|? ? Hp Hrest]; subst.
-    destruct (split_once EQUALS pr) as [[key value]|] eqn:E; [|destruct is_path; discriminate].
-    apply split_once_some in E. destruct E as [-> Hke].
-    assert (Hkc : ~ In COMMA key) by (intros H; apply Hp; apply in_or_app; now left).
-    assert (Hvc : ~ In COMMA value) by (intros H; apply Hp; apply in_or_app; right; now right).
-    assert (Hj : join COMMA ((key ++ EQUALS :: value) :: rest)
-                 = (key ++ EQUALS :: value) ++ match rest with [] => [] | _ => COMMA :: join COMMA rest end).
-    { destruct rest; [cbn [join]; now rewrite app_nil_r|reflexivity]. }
-    destruct (bytes_eqb key PATH) eqn:E1.
-    { apply bytes_eqb_spec in E1. subst key. destruct is_path; [|discriminate]. inversion Hs; subst.
-      exists [], rest. cbn [map concat app]. repeat split; auto. }
-    destruct (bytes_eqb key ABSTRACT) eqn:E2.
-    { apply bytes_eqb_spec in E2. subst key. destruct is_path; [discriminate|]. inversion Hs; subst.
-      exists [], rest. cbn [map concat app]. repeat split; auto. }
-    destruct (IH Hrest Hs) as (before & rest' & Ej & Hok & Hns & Hv).
-    exists ((key, value) :: before), rest'. split; [|split; [|split]]; auto.
-    + destruct rest as [|q rest]; [destruct is_path; discriminate Hs|].
-      rewrite join_cons, Ej. cbn [map concat]. change (render (key, value)) with (key ++ EQUALS :: value).
-      set (Z := render (_, v) ++ _). rewrite <- !app_assoc. reflexivity.
-    + constructor; [|exact Hok]. repeat split; auto.
-    + constructor; [|exact Hns]. cbn [fst]. intros [->| ->]; [now rewrite bytes_eqb_refl in E1|now rewrite bytes_eqb_refl in E2].
+  intros (pairs & -> & Hok & Hf & Hv). unfold parse_pre.
+  rewrite (proj2 (no_semicolon_spec _) (unix_address_no_semicolon _ Hok)).
+  unfold unix_address. rewrite split_once_unix, bytes_eqb_refl.
+  assert (Hne : map render pairs <> []) by (destruct pairs; [discriminate Hf|discriminate]).
+  rewrite split_join_inv; [|exact Hne|].
+  2:{ apply Forall_forall. intros p Hp. apply in_map_iff in Hp. destruct Hp as (kv & <- & Hkv).
+      apply render_no_comma. rewrite Forall_forall in Hok. now apply Hok. }
+  rewrite scan_pairs_render.
+  2:{ eapply Forall_impl; [|exact Hok]. intros kv H. apply H. }
+  rewrite Hf. cbn [scan_spec is_some orb]. destruct v as [|x v]; [congruence|]. cbn [is_nil].
+  destruct is_path; reflexivity.
 Qed.
 
-Lemma parse_pre_inv addr (is_path : bool) v :
-  parse_pre addr = (if is_path then PPath v else PAbstract v) ->
-  exists before tail, addr = accepted_text before (if is_path then PATH else ABSTRACT) v tail
-    /\ Forall pair_ok before /\ Forall (fun kv => ~ sock_key (fst kv)) before /\ ~ In COMMA v /\ tail_ok tail.
+Lemma parse_pre_grammar_inv addr (is_path : bool) v : parse_pre addr = pre_of is_path v -> addr_grammar addr is_path v.
 Proof.
   unfold parse_pre. intros H.
-  destruct (split_once COLON addr) as [[sys pairs]|] eqn:E; [|destruct is_path; discriminate].
+  destruct (existsb (N.eqb SEMICOLON) addr) eqn:Es; [destruct is_path; discriminate|].
+  apply no_semicolon_spec in Es.
+  destruct (split_once COLON addr) as [[sys rest]|] eqn:E; [|destruct is_path; discriminate].
   apply split_once_some in E. destruct E as [-> _].
-  destruct (bytes_eqb sys UNIX) eqn:Es; [|destruct is_path; discriminate].
-  apply bytes_eqb_spec in Es. subst sys.
-  destruct (split_join COMMA pairs) as [Ej Hnc].
-  destruct (scan_pairs_inv _ _ _ Hnc H) as (before & rest & Ej' & Hok & Hns & Hv).
-  exists before, (match rest with [] => [] | _ => COMMA :: join COMMA rest end).
-  unfold accepted_text. rewrite <- Ej' , Ej. repeat split; auto.
-  destruct rest; [now left|right; eexists; reflexivity].
+  destruct (bytes_eqb sys UNIX) eqn:Eu; [|destruct is_path; discriminate].
+  apply bytes_eqb_spec in Eu. subst sys.
+  destruct (scan_pairs (split COMMA rest) None) as [res|] eqn:Esc; [|destruct is_path; discriminate].
+  destruct (scan_pairs_inv _ _ _ Esc) as (pairs & Eps & Hke).
+  rewrite Eps, scan_pairs_render in Esc by exact Hke.
+  assert (Hres : res = Some (is_path, v)).
+  { destruct res as [[[|] v']|]; destruct is_path; cbn in H; congruence. }
+  subst res. apply scan_spec_one in Esc. destruct Esc as (k & Hf & Hv & Hb).
+  destruct (split_join COMMA rest) as [Ej Hnc]. rewrite Eps in Ej, Hnc.
+  exists pairs. split; [unfold unix_address; now rewrite Ej|]. split; [|split; [|exact Hv]].
+  - apply Forall_forall. intros kv Hkv.
+    assert (Hin : In (render kv) (map render pairs)) by (apply in_map; exact Hkv).
+    rewrite Forall_forall in Hnc, Hke. specialize (Hnc _ Hin). specialize (Hke _ Hkv).
+    assert (Hsemi : forall x, In x (render kv) -> In x (UNIX ++ COLON :: rest)).
+    { intros x Hx. apply in_or_app. right. right. rewrite <- Ej. eapply In_join_r; eauto. }
+    unfold pair_ok. repeat split.
+    + intros Hx. apply Hnc. unfold render. apply in_or_app. now left.
+    + exact Hke.
+    + intros Hx. apply Es, Hsemi. unfold render. apply in_or_app. now left.
+    + intros Hx. apply Hnc. unfold render. apply in_or_app. right. now right.
+    + intros Hx. apply Es, Hsemi. unfold render. apply in_or_app. right. now right.
+  - rewrite Hf. f_equal. f_equal.
+    assert (Hsk : sockb (k, v) = true).
+    { assert (Hin : In (k, v) (filter sockb pairs)) by (rewrite Hf; now left). apply filter_In in Hin. apply Hin. }
+    unfold sockb, is_socket_key in Hsk. cbn [fst] in Hsk. rewrite Hb in Hsk.
+    destruct is_path; [now apply bytes_eqb_spec in Hb|]. cbn [orb] in Hsk. now apply bytes_eqb_spec in Hsk.
 Qed.
 
-(* T2: whenever an address resolves, it is "unix:" + pairs without socket key + the socket pair +
-   (nothing | ',' anything), and the result is exactly that pair's socket *)
-Theorem addr_resolves_only exists_ addr r :
-  parse_dbus_addr_str exists_ addr = Ok r ->
-  exists before (is_path : bool) v tail,
-    addr = accepted_text before (if is_path then PATH else ABSTRACT) v tail
-    /\ Forall pair_ok before /\ Forall (fun kv => ~ sock_key (fst kv)) before /\ ~ In COMMA v /\ tail_ok tail
-    /\ len v < SUN_PATH
-    /\ r = (if is_path then Path v else Abstract v) /\ (is_path = true -> exists_ v = true).
+Lemma resolve_target exists_ is_path v : resolve exists_ (pre_of is_path v) = target exists_ is_path v.
+Proof. unfold resolve, target, pre_of. destruct is_path; [|reflexivity]. destruct (exists_ v), (len v <? SUN_PATH); reflexivity. Qed.
+
+(* T1: an address of the supported kind resolves to exactly the socket it names *)
+Theorem addr_grammar_resolves exists_ addr is_path v :
+  addr_grammar addr is_path v -> parse_dbus_addr_str exists_ addr = target exists_ is_path v.
+Proof. intros H. unfold parse_dbus_addr_str. rewrite (parse_pre_grammar _ _ _ H). apply resolve_target. Qed.
+
+(* T2: exactly those strings resolve, and to that socket *)
+Theorem addr_resolves_iff exists_ addr r :
+  parse_dbus_addr_str exists_ addr = Ok r <->
+  exists (is_path : bool) v, addr_grammar addr is_path v /\ len v < SUN_PATH
+    /\ (is_path = true -> exists_ v = true) /\ r = (if is_path then Path v else Abstract v).
 Proof.
-  unfold parse_dbus_addr_str. intros H. destruct (parse_pre addr) as [|p|k] eqn:E; cbn [resolve] in H; [discriminate| |].
-  - destruct (exists_ p) eqn:Ee; [|discriminate]. destruct (N.ltb_spec (len p) SUN_PATH) as [Hl|Hl]; [|discriminate].
-    inversion H; subst. destruct (parse_pre_inv addr true p E) as (before & tail & Ea & Hok & Hns & Hv & Ht).
-    exists before, true, p, tail. repeat split; auto.
-  - destruct (N.ltb_spec (len k) SUN_PATH) as [Hl|Hl]; [|discriminate].
-    inversion H; subst. destruct (parse_pre_inv addr false k E) as (before & tail & Ea & Hok & Hns & Hv & Ht).
-    exists before, false, k, tail. repeat split; auto. discriminate.
+  split.
+  - unfold parse_dbus_addr_str. intros H. destruct (parse_pre addr) as [|p|k] eqn:E; cbn [resolve] in H; [discriminate| |].
+    + destruct (exists_ p) eqn:Ee; [|discriminate]. destruct (N.ltb_spec (len p) SUN_PATH) as [Hl|Hl]; [|discriminate].
+      inversion H; subst. exists true, p. split; [now apply parse_pre_grammar_inv|]. auto.
+    + destruct (N.ltb_spec (len k) SUN_PATH) as [Hl|Hl]; [|discriminate].
+      inversion H; subst. exists false, k. split; [now apply parse_pre_grammar_inv|]. repeat split; auto. discriminate.
+  - intros (is_path & v & Hg & Hl & He & ->). rewrite (addr_grammar_resolves exists_ _ _ _ Hg). unfold target.
+    apply N.ltb_lt in Hl. rewrite Hl. destruct is_path; [|reflexivity]. now rewrite (He eq_refl).
 Qed.
 
-(* and the accepted texts do resolve (so T2 is an exact characterisation) *)
-Theorem addr_accepted_text_resolves exists_ before (is_path : bool) v tail :
-  Forall pair_ok before -> Forall (fun kv => ~ sock_key (fst kv)) before -> ~ In COMMA v -> tail_ok tail ->
-  parse_dbus_addr_str exists_ (accepted_text before (if is_path then PATH else ABSTRACT) v tail)
-  = target exists_ is_path v.
-Proof.
-  intros Hok Hns Hv Ht. unfold parse_dbus_addr_str, accepted_text. rewrite parse_pre_unix.
-  rewrite scan_pairs_skip; auto.
-  - destruct is_path; cbn [bytes_eqb PATH ABSTRACT]; apply resolve_target.
-  - destruct is_path; repeat split; cbn [fst snd]; auto; cbv; intuition discriminate.
-Qed.
-
-(* T3: other transports, no ':' at all, a pair without '=' before the socket key: errors *)
-Theorem addr_no_colon exists_ addr : ~ In COLON addr -> parse_dbus_addr_str exists_ addr = Err.
-Proof. intros H. unfold parse_dbus_addr_str, parse_pre. apply split_once_none in H. now rewrite H. Qed.
-Theorem addr_other_transport exists_ sys rest :
-  ~ In COLON sys -> sys <> UNIX -> parse_dbus_addr_str exists_ (sys ++ COLON :: rest) = Err.
-Proof.
-  intros Hc Hne. unfold parse_dbus_addr_str, parse_pre.
-  assert (E : split_once COLON (sys ++ COLON :: rest) = Some (sys, rest)) by (apply split_once_some; auto).
-  rewrite E. now rewrite bytes_eqb_neq.
-Qed.
-Theorem addr_pair_without_equals exists_ before bad tail :
-  Forall pair_ok before -> Forall (fun kv => ~ sock_key (fst kv)) before ->
-  ~ In EQUALS bad -> ~ In COMMA bad -> tail_ok tail ->
-  parse_dbus_addr_str exists_ (UNIX ++ COLON :: concat (map (fun kv => render kv ++ [COMMA]) before) ++ bad ++ tail) = Err.
-Proof.
-  intros Hok Hns He Hc Ht. unfold parse_dbus_addr_str. rewrite parse_pre_unix.
-  assert (E : scan_pairs (split COMMA (concat (map (fun kv => render kv ++ [COMMA]) before) ++ bad ++ tail)) = PErr);
-    [|now rewrite E].
-  induction before as [|kv before IH]; cbn [map concat app].
-  - assert (Hs : exists more, split COMMA (bad ++ tail) = bad :: more).
-    { destruct Ht as [->|[t ->]]; [rewrite app_nil_r, split_no_sep by assumption; now eexists|].
-      rewrite split_app by assumption. now eexists. }
-    destruct Hs as [more ->]. cbn [scan_pairs]. apply split_once_none in He. now rewrite He.
-  - inversion Hok as [|? ? Hkv Hok']; subst. inversion Hns as [|? ? Hn Hns']; subst.
-    rewrite <- !app_assoc. cbn [app]. rewrite split_app by (now apply render_no_comma).
-    cbn [scan_pairs]. rewrite split_once_render by (apply Hkv).
-    destruct (not_sock_key_eqb _ Hn) as [-> ->]. now apply IH.
-Qed.
-
-(* T4: total - a result or an error, never a panic (no indexing, no unwrap on these paths) *)
+(* T3: total - a result or an error, never a panic (no indexing, no unwrap on these paths) *)
 Theorem addr_total exists_ addr : ok_or_err (parse_dbus_addr_str exists_ addr).
 Proof.
   unfold parse_dbus_addr_str, resolve. destruct (parse_pre addr) as [|p|k]; cbn; [exact I| |].
@@ -259,4 +226,96 @@ Qed.
 Theorem session_total exists_ env : ok_or_err (get_session_bus_path exists_ env).
 Proof.
   unfold get_session_bus_path. destruct env as [b|]; [|exact I]. destruct (utf8_valid b); [apply addr_total|exact I].
+Qed.
+
+(* T4: any other string yields an error *)
+Theorem addr_other_is_error exists_ addr :
+  (forall is_path v, ~ addr_grammar addr is_path v) -> parse_dbus_addr_str exists_ addr = Err.
+Proof.
+  intros H. pose proof (addr_total exists_ addr) as Ht.
+  destruct (parse_dbus_addr_str exists_ addr) as [r| | | |] eqn:E; try reflexivity; try destruct Ht.
+  apply addr_resolves_iff in E. destruct E as (is_path & v & Hg & _). exfalso. exact (H _ _ Hg).
+Qed.
+
+(* ---------------------------------------------------------------- readable instances *)
+Lemma filter_one before kv after :
+  Forall (fun kv => ~ sock_key (fst kv)) before -> Forall (fun kv => ~ sock_key (fst kv)) after -> sock_key (fst kv) ->
+  filter sockb (before ++ kv :: after) = [kv].
+Proof.
+  intros Hb Ha Hk. rewrite filter_app. cbn [filter]. rewrite (filter_no_sock _ Hb), (filter_no_sock _ Ha).
+  unfold sockb. apply is_socket_key_spec in Hk. now rewrite Hk.
+Qed.
+
+(* further keys in any order, before and after the socket pair *)
+Theorem addr_path_resolves exists_ before p after :
+  Forall pair_ok (before ++ (PATH, p) :: after) ->
+  Forall (fun kv => ~ sock_key (fst kv)) before -> Forall (fun kv => ~ sock_key (fst kv)) after -> p <> [] ->
+  parse_dbus_addr_str exists_ (unix_address (before ++ (PATH, p) :: after)) = target exists_ true p.
+Proof.
+  intros Hok Hb Ha Hp. apply addr_grammar_resolves. exists (before ++ (PATH, p) :: after).
+  split; [reflexivity|]. split; [exact Hok|]. split; [|exact Hp]. apply filter_one; auto. now left.
+Qed.
+Theorem addr_abstract_resolves exists_ before k after :
+  Forall pair_ok (before ++ (ABSTRACT, k) :: after) ->
+  Forall (fun kv => ~ sock_key (fst kv)) before -> Forall (fun kv => ~ sock_key (fst kv)) after -> k <> [] ->
+  parse_dbus_addr_str exists_ (unix_address (before ++ (ABSTRACT, k) :: after)) = target exists_ false k.
+Proof.
+  intros Hok Hb Ha Hk. apply addr_grammar_resolves. exists (before ++ (ABSTRACT, k) :: after).
+  split; [reflexivity|]. split; [exact Hok|]. split; [|exact Hk]. apply filter_one; auto. now right.
+Qed.
+
+(* the error classes the property and its history name, explicitly *)
+Theorem addr_semicolon exists_ addr : In SEMICOLON addr -> parse_dbus_addr_str exists_ addr = Err.
+Proof.
+  intros H. unfold parse_dbus_addr_str, parse_pre.
+  destruct (existsb (N.eqb SEMICOLON) addr) eqn:E; [reflexivity|]. apply no_semicolon_spec in E. contradiction.
+Qed.
+Theorem addr_no_colon exists_ addr : ~ In COLON addr -> parse_dbus_addr_str exists_ addr = Err.
+Proof.
+  intros H. unfold parse_dbus_addr_str, parse_pre. apply split_once_none in H. rewrite H.
+  now destruct (existsb (N.eqb SEMICOLON) addr).
+Qed.
+Theorem addr_other_transport exists_ sys rest :
+  ~ In COLON sys -> sys <> UNIX -> parse_dbus_addr_str exists_ (sys ++ COLON :: rest) = Err.
+Proof.
+  intros Hc Hne. unfold parse_dbus_addr_str, parse_pre.
+  assert (E : split_once COLON (sys ++ COLON :: rest) = Some (sys, rest)) by (apply split_once_some; auto).
+  rewrite E, (bytes_eqb_neq _ _ Hne). now destruct (existsb (N.eqb SEMICOLON) (sys ++ COLON :: rest)).
+Qed.
+(* well-formed pairs, but none / two of them name a socket, or the socket value is empty *)
+Theorem addr_socket_count exists_ pairs :
+  Forall pair_ok pairs -> pairs <> [] ->
+  (forall kv, filter sockb pairs <> [kv]) \/ (exists k, filter sockb pairs = [(k, [])]) ->
+  parse_dbus_addr_str exists_ (unix_address pairs) = Err.
+Proof.
+  intros Hok Hne Hbad. unfold parse_dbus_addr_str, parse_pre.
+  rewrite (proj2 (no_semicolon_spec _) (unix_address_no_semicolon _ Hok)).
+  unfold unix_address. rewrite split_once_unix, bytes_eqb_refl.
+  rewrite split_join_inv.
+  2:{ destruct pairs; [congruence|discriminate]. }
+  2:{ apply Forall_forall. intros p Hp. apply in_map_iff in Hp. destruct Hp as (kv & <- & Hkv).
+      apply render_no_comma. rewrite Forall_forall in Hok. now apply Hok. }
+  rewrite scan_pairs_render.
+  2:{ eapply Forall_impl; [|exact Hok]. intros kv H. apply H. }
+  destruct (scan_spec (filter sockb pairs) None) as [[[b v]|]|] eqn:E; try reflexivity.
+  apply scan_spec_one in E. destruct E as (k & Ef & Hv & _). exfalso.
+  destruct Hbad as [Hbad|[k' Hbad]]; [exact (Hbad _ Ef)|]. rewrite Ef in Hbad. inversion Hbad. congruence.
+Qed.
+(* a piece without '=' anywhere in the comma-separated list, before or after the socket pair *)
+Lemma scan_pairs_bad ps bad : In bad ps -> ~ In EQUALS bad -> forall socket, scan_pairs ps socket = None.
+Proof.
+  intros Hin He. induction ps as [|pr rest IH]; [destruct Hin|]. intros socket. cbn [scan_pairs].
+  destruct Hin as [->|Hin].
+  - apply split_once_none in He. now rewrite He.
+  - destruct (split_once EQUALS pr) as [[key value]|]; [|reflexivity].
+    destruct (is_socket_key key); [destruct (is_some socket || is_nil value); [reflexivity|]|]; now apply IH.
+Qed.
+Theorem addr_pair_without_equals exists_ pieces bad :
+  Forall (fun p => ~ In COMMA p) pieces -> In bad pieces -> ~ In EQUALS bad ->
+  parse_dbus_addr_str exists_ (UNIX ++ COLON :: join COMMA pieces) = Err.
+Proof.
+  intros Hnc Hin He. unfold parse_dbus_addr_str, parse_pre.
+  destruct (existsb (N.eqb SEMICOLON) (UNIX ++ COLON :: join COMMA pieces)); [reflexivity|].
+  rewrite split_once_unix, bytes_eqb_refl, split_join_inv; [|destruct pieces; [destruct Hin|discriminate]|exact Hnc].
+  now rewrite (scan_pairs_bad _ _ Hin He).
 Qed.
